@@ -23,6 +23,8 @@ type WCurve struct {
 	G    WPoint
 
 	once sync.Once
+	mu   sync.Mutex
+	memo map[string]WPoint
 	tab  []WPoint // 2^i · G
 }
 
@@ -105,12 +107,28 @@ func (c *WCurve) MulG(k *big.Int) WPoint {
 		}
 	})
 	kk := new(big.Int).Mod(k, c.R)
+	key := kk.Text(62)
+	c.mu.Lock()
+	if v, ok := c.memo[key]; ok {
+		c.mu.Unlock()
+		return v
+	}
+	c.mu.Unlock()
 	acc := c.Identity()
 	for i := 0; i < kk.BitLen(); i++ {
 		if kk.Bit(i) == 1 {
 			acc = c.Add(acc, c.tab[i])
 		}
 	}
+	// results are memoised (callers treat points as immutable values)
+	c.mu.Lock()
+	if c.memo == nil {
+		c.memo = map[string]WPoint{}
+	}
+	if len(c.memo) < 200000 {
+		c.memo[key] = acc
+	}
+	c.mu.Unlock()
 	return acc
 }
 
